@@ -60,3 +60,51 @@ package actionlint
 //@   ensures (result == nil) == (p.lexer.lexErr == nil && p.err == nil)
 // a sub-parser returns no tree only after an error was recorded
 //@ auto_ensures ^\(\*ExprParser\)\.parse: result == nil ==> p.err != nil || p.lexer.lexErr != nil
+
+// Precedence as stratification of the recursive descent: `||` < `&&` < comparison < `!` < postfix <
+// primary. Each level parses its operands with the next tighter level and recurses only into itself
+// (right operand) - a level never reaches a looser one except through parentheses, call arguments
+// and index expressions, which restart at the loosest level. `body_calls F iff r == r` reads: on
+// every path that reaches a return where the right operand r is in scope, F was called.
+//@ func (*ExprParser).parseLogicalOr
+//@   props C04
+//@   anchor
+//@   body_calls (*ExprParser).parseLogicalAnd iff true
+//@   body_calls (*ExprParser).parseLogicalOr iff r == r
+//@   forbid_call (*ExprParser).parseCompareBinOp (*ExprParser).parsePrefixOp (*ExprParser).parsePostfixOp (*ExprParser).parsePrimaryExpr
+//@ func (*ExprParser).parseLogicalAnd
+//@   props C04
+//@   anchor
+//@   body_calls (*ExprParser).parseCompareBinOp iff true
+//@   body_calls (*ExprParser).parseLogicalAnd iff r == r
+//@   forbid_call (*ExprParser).parseLogicalOr (*ExprParser).parsePrefixOp (*ExprParser).parsePostfixOp (*ExprParser).parsePrimaryExpr
+//@ func (*ExprParser).parseCompareBinOp
+//@   props C04
+//@   anchor
+//@   body_calls (*ExprParser).parsePrefixOp iff true
+//@   body_calls (*ExprParser).parseCompareBinOp iff r == r
+//@   forbid_call (*ExprParser).parseLogicalOr (*ExprParser).parseLogicalAnd (*ExprParser).parsePostfixOp (*ExprParser).parsePrimaryExpr
+//@ func (*ExprParser).parsePrefixOp
+//@   props C04
+//@   anchor
+//@   body_calls (*ExprParser).parsePostfixOp iff t.Kind != TokenKindNot
+//@   body_calls (*ExprParser).parsePrefixOp iff t.Kind == TokenKindNot
+//@   forbid_call (*ExprParser).parseLogicalOr (*ExprParser).parseLogicalAnd (*ExprParser).parseCompareBinOp (*ExprParser).parsePrimaryExpr
+//@ func (*ExprParser).parsePostfixOp
+//@   props C04
+//@   anchor
+//@   body_calls (*ExprParser).parsePrimaryExpr iff true
+//@   forbid_call (*ExprParser).parseLogicalAnd (*ExprParser).parseCompareBinOp (*ExprParser).parsePrefixOp (*ExprParser).parsePostfixOp
+//@ func (*ExprParser).parsePrimaryExpr
+//@   props C04
+//@   anchor
+//@   forbid_call (*ExprParser).parseLogicalOr (*ExprParser).parseLogicalAnd (*ExprParser).parseCompareBinOp (*ExprParser).parsePrefixOp (*ExprParser).parsePostfixOp
+//@ func (*ExprParser).parseNestedExpr
+//@   props C04
+//@   anchor
+//@   body_calls (*ExprParser).parseLogicalOr iff true
+//@   forbid_call (*ExprParser).parseLogicalAnd (*ExprParser).parseCompareBinOp (*ExprParser).parsePrefixOp (*ExprParser).parsePostfixOp (*ExprParser).parsePrimaryExpr
+//@ func (*ExprParser).parseIdent
+//@   props C04
+//@   anchor
+//@   forbid_call (*ExprParser).parseLogicalAnd (*ExprParser).parseCompareBinOp (*ExprParser).parsePrefixOp (*ExprParser).parsePostfixOp (*ExprParser).parsePrimaryExpr
